@@ -37,8 +37,19 @@ Record cfg := { finalT : option Q; allowInterp : bool; everyStep : bool; stepLim
                 projInterp : bool }.
 
 (** answer of one takeOneStep: time the advanced state ends at, localized event window if any,
-    and whether the accepted attempt went through the projecting exit of attemptDAEStep (C21) *)
-Record outcome := { t1 : Q; ev : option (Q*Q); proj : bool }.
+    whether the accepted attempt went through the projecting exit of attemptDAEStep (C21), and the end time
+    [t1att] of that accepted attempt (= t1 unless an event was localized strictly inside the step) *)
+Record outcome := { t1 : Q; ev : option (Q*Q); proj : bool; t1att : Q }.
+
+(** end of takeOneStep: "if (tHigh < getAdvancedTime()) backUpAdvancedStateByInterpolation(tHigh)".
+    backUpAdvancedStateByInterpolation ignores the user's project-interpolated-states option: what it produces
+    is the advanced state the trajectory continues from (and the one handed to event handlers), so it always
+    ends with realizeAndProjectKinematicsWithThrow -- unlike createInterpolatedState ([mk_interp] below). *)
+Definition backed_up (o:outcome) : bool :=
+  match ev o with Some (_, hi) => qlt hi (t1att o) | None => false end.
+Definition back_up_projects : bool := true.
+(** has the advanced state at the end of takeOneStep passed projection? *)
+Definition step_end_proj (o:outcome) : bool := if backed_up o then back_up_projects else proj o.
 
 Inductive result (A:Type) := Ok (a:A) | Refused | StepFailed | OutOfOracle.
 Arguments Ok {A}. Arguments Refused {A}. Arguments StepFailed {A}. Arguments OutOfOracle {A}.
@@ -61,9 +72,9 @@ Definition mk_interp (c:cfg) (s:ist) (t:Q) : ist :=
 Definition after_step (s:ist) (o:outcome) : ist :=
   match ev o with
   | None => {| comm_st := StepNoEvent; tAdv := t1 o; tInterp := tInterp s; interp := interp s;
-               tLow := tLow s; tHigh := tHigh s; startCI := startCI s; advProj := proj o; intProj := intProj s |}
+               tLow := tLow s; tHigh := tHigh s; startCI := startCI s; advProj := step_end_proj o; intProj := intProj s |}
   | Some (lo,hi) => {| comm_st := StepWithEvent; tAdv := t1 o; tInterp := tInterp s; interp := interp s;
-               tLow := lo; tHigh := hi; startCI := startCI s; advProj := proj o; intProj := intProj s |}
+               tLow := lo; tHigh := hi; startCI := startCI s; advProj := step_end_proj o; intProj := intProj s |}
   end.
 
 Definition ge_final (c:cfg) (t:Q) : bool := match finalT c with None => false | Some f => qle f t end.
